@@ -547,8 +547,86 @@ def _split(nm, depth):
     return out
 
 
+DTYPES = ['float64', 'float32', 'int64', 'int16', 'bool']
+
+
+def _dtype_stack(dtype, kind, rids, n_cond=3):
+    """a stack stored with the given dtype; kind: 'whole' (whole numbers), 'fraction' (values .. + 0.5 / 0.1),
+    'nan' (one missing pair) - only what the dtype can hold"""
+    from rsatoolbox.rdm import RDMs
+    n_pairs = n_cond * (n_cond - 1) // 2
+    v = np.array([[10.0 * r + k + 1 for k in range(n_pairs)] for r in rids])
+    if dtype == 'bool':
+        v = (v.astype(int) % 2).astype(float)
+    if kind == 'fraction':
+        v = v + np.array([0.5, 0.1, 0.25][:n_pairs])
+    if kind == 'nan':
+        v[0, 1] = np.nan
+    return RDMs(v.astype(dtype), rdm_descriptors={'rid': list(rids)},
+                pattern_descriptors={'cid': list(range(n_cond))}), v
+
+
+def _dtypes(ctx, only=None):
+    """stacks stored as integers / single precision / booleans: every operation that joins or re-arranges
+    values keeps each pair's value EXACTLY (as a number) - joining never casts a value to the receiver's type"""
+    import rsatoolbox.rdm as R
+    for recv in DTYPES:
+        for other in DTYPES:
+            for kind in ('whole', 'fraction', 'nan'):
+                if kind != 'whole' and other not in ('float64', 'float32'):
+                    continue
+                for op in ('append', 'concat', 'concat-reversed', 'subsample_pattern', 'reorder', 'get_matrices'):
+                    case = {'kind': 'dtype', 'recv': recv, 'other': other, 'values': kind, 'op': op}
+                    if only is not None and only != case:
+                        continue
+                    ctx.case(case)
+                    sig = '%s|stored-dtype' % op.split('-')[0]
+                    with ctx.guard(sig, case):
+                        a, va = _dtype_stack(recv, 'whole', [0, 1])
+                        b, vb = _dtype_stack(other, kind, [5])
+                        va = a.dissimilarities.astype(float)          # what the receiver holds, as numbers
+                        vb = b.dissimilarities.astype(float)
+                        if op == 'append':
+                            a.append(b)
+                            got, want = a.dissimilarities, np.concatenate([va, vb])
+                        elif op == 'concat':
+                            got, want = R.concat([a, b]).dissimilarities, np.concatenate([va, vb])
+                        elif op == 'concat-reversed':
+                            got, want = R.concat([b, a]).dissimilarities, np.concatenate([vb, va])
+                        elif op == 'subsample_pattern':
+                            if kind != 'whole' or other != recv:
+                                continue
+                            got = a.subsample_pattern('cid', [0, 2, 2]).get_matrices()
+                            m = a.get_matrices().astype(float)
+                            idx = [0, 2, 2]
+                            want = m[:, idx][:, :, idx]
+                            for q in range(3):
+                                want[:, q, q] = 0
+                            want[:, 1, 2] = want[:, 2, 1] = np.nan
+                        elif op == 'reorder':
+                            if kind != 'whole' or other != recv:
+                                continue
+                            m = a.get_matrices().astype(float)
+                            a.reorder([2, 0, 1])
+                            got, want = a.get_matrices(), m[:, [2, 0, 1]][:, :, [2, 0, 1]]
+                        else:
+                            if kind != 'whole' or other != recv:
+                                continue
+                            got = a.get_matrices()
+                            want = np.zeros((2, 3, 3))
+                            iu = np.triu_indices(3, 1)
+                            for q in range(2):
+                                want[q][iu] = va[q]
+                                want[q] = want[q] + want[q].T
+                        got = np.asarray(got, dtype=float)
+                        if got.shape != want.shape or not np.array_equal(got, want, equal_nan=True):
+                            ctx.fail(sig + '|value-changed', case, 'values %r, the sources hold %r' % (
+                                got.tolist(), want.tolist()))
+                        ctx.outcome((recv, other, kind, op))
+
+
 def shards(tier, seed):
-    out = [{'kind': 'ncond'}]
+    out = [{'kind': 'ncond'}, {'kind': 'dtype'}]
     for nm, n_rdm, n_cond, cont, nan in _initials():
         if tier == 'quick':
             if (n_rdm, n_cond) == (1, 2):
@@ -563,6 +641,8 @@ def shards(tier, seed):
 def run_shard(shard, ctx):
     if shard['kind'] == 'ncond':
         return _ncond(ctx)
+    if shard['kind'] == 'dtype':
+        return _dtypes(ctx)
     init = _make_initial(shard['init'])
     cap = BOUNDS[ctx.tier].get('transition_cap_per_shard')
     if shard['first'] is None:
@@ -607,6 +687,8 @@ def _ncond(ctx):
 def run_case(case, ctx):
     if case.get('kind') == 'ncond':
         return _ncond(ctx)
+    if case.get('kind') == 'dtype':
+        return _dtypes(ctx, only={k: case[k] for k in ('kind', 'recv', 'other', 'values', 'op')})
     hist = case['history']
     name = hist[0]
     init = _make_initial(name)
